@@ -269,6 +269,20 @@ def Shaped : List Arg → List Actual → Prop
 
 def actualBits (as : List Actual) : List BExp := (as.map (·.bits)).flatten
 
+/-- values of the call's result bits in caller environment `ρ` (`none` = the call is rejected) -/
+def callVals (q : Quirks) (f : LogicFun) (orders : List (List String)) (actuals : List Actual)
+    (ρ : Env) : Option (List Bool) :=
+  match callSite q (bindFunction q orders f) actuals with
+  | .ok rs => some (rs.map (·.eval ρ))
+  | .error _ => none
+
+/-- symbols of the call's result bits -/
+def callSyms (q : Quirks) (f : LogicFun) (orders : List (List String)) (actuals : List Actual) :
+    List String :=
+  match callSite q (bindFunction q orders f) actuals with
+  | .ok rs => (rs.map (·.syms)).flatten
+  | .error _ => []
+
 /-! ## triggers of the listed defects (decidable predicates on the input) -/
 
 /-- `argIndexFromName` bites: the keys recovered from the actual's symbol names are not the
